@@ -130,6 +130,9 @@ Definition kstep (cta del_db : bool) (fx : fixes) (s : kstate) (a : kaction) : o
       | _ => None
       end
   | KR a =>
+      (* these steps take (or, for wg.Wait and a failing Receive, are conservatively taken to take)
+         the router lock, which the first caller of the unchanged Close holds across its send *)
+      if klock s then None else
       if allowed a then
         match step fx (router s) a with
         | Some r' => Some (mkK (flag s) (klock s) (start s) (sent s) (callers s) r' (ws_started s)
